@@ -180,12 +180,19 @@ class HedGroup:
             else:
                 group_list.append((child, child._sorted(update_self)))
 
-        tag_list.sort(key=lambda x: str(x[0]))
-        group_list.sort(key=lambda x: str(x[0]))
+        tag_list.sort(key=lambda x: str(x[0]).casefold())
+        # Groups are ordered by their sorted content, so that groups equal up to member order end up adjacent.
+        group_list.sort(key=lambda x: (HedGroup._sorted_text(x[1]), str(x[0])))
         output_list = tag_list + group_list
         if update_self:
             self.children = [x[0] for x in output_list]
         return [x[1] for x in output_list]
+
+    @staticmethod
+    def _sorted_text(sorted_children):
+        """ Return the text of an already sorted list of children (as returned by _sorted), case-folded. """
+        return "(" + ",".join(str(child).casefold() if isinstance(child, HedTag) else HedGroup._sorted_text(child)
+                              for child in sorted_children) + ")"
 
     @property
     def is_group(self):
